@@ -17,6 +17,7 @@ combinator sitting there, so pipelines follow by induction (`sound_comp`).
 import HvPush.Lemmas.Drain
 import HvPush.Lemmas.Driver
 import HvPush.Lemmas.Route
+import HvPush.Lemmas.Queue
 namespace HvPush
 open Prog
 
@@ -1152,6 +1153,88 @@ theorem statePush_sound (merge : L → α → L × Bool) (i0 : α → β) (i1 : 
         | false =>
           have := hwf 1 (h6 hc)
           rw [(h7 hs).2] at this; cases this)
+
+/-! ## ResolveFutures, blocking mode (`subgraph_waker = None`), over the scripted queue -/
+
+def aux_invResolve (ordered : Bool) (q0 : List (QEntry β)) : Inv1T (List (QEntry β)) (Nat × β) β :=
+  fun pu q pd su sd =>
+    (pd.started = true → pu.started = true) ∧ pd.closed = pu.closed ∧
+    (sd ++ qvals q).Perm (qvals q0 ++ su.map (·.2)) ∧
+    (ordered = true → sd ++ qvals q = qvals q0 ++ su.map (·.2)) ∧
+    (pd.started = true → q = [])
+
+theorem aux_perm_nil_left {a b : List β} (h : (a ++ b).Perm []) : a = [] ∧ b = [] := by
+  have := h.eq_nil
+  simpa using this
+
+theorem aux_emptyReady {ordered : Bool} {q q1 : List (QEntry β)} {es : List (PEv β)} {b : Bool} {pd : PSt}
+    (he : Emits (emptyReady ordered false q) es (q1, b)) (h5 : pd.started = true → q = []) :
+    ∃ es0 pd', es = onPort 0 es0 ∧ pd.run es0 = some pd' ∧ pd'.started = pd.started ∧ pd'.closed = pd.closed ∧
+      (sends es0 ++ qvals q1).Perm (qvals q) ∧ (ordered = true → sends es0 ++ qvals q1 = qvals q) ∧
+      (b = true → q1 = []) ∧ (pd.started = true → q1 = []) := by
+  obtain ⟨sent, r, rfl, g1, g2, g3, g4⟩ := emptyReadyAux_shape ordered false (q.length + 1) (by omega) he
+  have hso : sent = [] ∨ pd.started = false := by
+    cases hs : pd.started
+    · exact Or.inr rfl
+    · have := h5 hs; subst this
+      exact Or.inl (aux_perm_nil_left (by simpa using g1)).1
+  refine ⟨_, _, rfl, run_drainTr_rdy sent r hso, rfl, rfl, by simpa using g1, by simpa using g2, fun hb => g4 hb rfl, ?_⟩
+  intro hs; have := h5 hs; subst this
+  have := (aux_perm_nil_left (by simpa using g1)).2
+  cases q1 <;> simp_all [qvals]
+
+theorem aux_simResolve (ordered : Bool) (q0 : List (QEntry β)) :
+    SimInv1 (resolveC (β := β) ordered false) (aux_invResolve ordered q0) where
+  ready := by
+    intro pu q pd su sd es k1 b ⟨h1, h2, h3, h4, h5⟩ he
+    obtain ⟨es0, pd', rfl, hr, g1, g2, g3, g4, g5, g6⟩ := aux_emptyReady (pd := pd) he h5
+    refine ⟨es0, pd', rfl, hr, by rw [g1]; exact h1, by rw [g2]; exact h2, ?_, ?_, by rw [g1]; exact g6⟩
+    · rw [List.append_assoc]; exact (List.Perm.append_left sd g3).trans h3
+    · intro ho; rw [List.append_assoc, g4 ho]; exact h4 ho
+  send := by
+    intro pu q pd su sd es k1 x ⟨h1, h2, h3, h4, h5⟩ hr hs he
+    simp only [resolveC, Bool.false_eq_true, if_false, emits_ret] at he
+    obtain ⟨rfl, rfl⟩ := he
+    have hps := aux_started_false h1 hs
+    refine ⟨[], pd, rfl, rfl, h1, h2, ?_, ?_, ?_⟩
+    · simp only [sends_nil, List.append_nil, qvals_append, qvals_cons, qvals_nil, List.map_append, List.map_cons, List.map_nil]
+      rw [← List.append_assoc, ← List.append_assoc]
+      exact List.Perm.append_right _ h3
+    · intro ho
+      simp only [sends_nil, List.append_nil, qvals_append, qvals_cons, qvals_nil, List.map_append, List.map_cons, List.map_nil]
+      rw [← List.append_assoc, ← List.append_assoc, h4 ho]
+    · intro h; rw [hps] at h; cases h
+  fin := by
+    intro pu q pd su sd es k1 b ⟨h1, h2, h3, h4, h5⟩ he
+    obtain ⟨es1, b1, he1, hcase⟩ := thenFin_shape he
+    obtain ⟨es0, pd', rfl, hr, g1, g2, g3, g4, g5, g6⟩ := aux_emptyReady (pd := pd) he1 h5
+    rcases hcase with ⟨rfl, rfl⟩ | ⟨rfl, rfl, rfl⟩
+    · refine ⟨es0 ++ [Ev.fin b], { pd' with started := true, closed := pd'.closed || b }, by simp [onPort], ?_, fun _ => rfl,
+        by simp [g2, h2], ?_, ?_, fun _ => g5 rfl⟩
+      · rw [PSt.run_append, hr]; simp [PSt.run, PSt.step]
+      · simp only [sends_append, sends_fin, sends_nil, List.append_nil]
+        rw [List.append_assoc]; exact (List.Perm.append_left sd g3).trans h3
+      · intro ho
+        simp only [sends_append, sends_fin, sends_nil, List.append_nil]
+        rw [List.append_assoc, g4 ho]; exact h4 ho
+    · refine ⟨es0, pd', rfl, hr, fun h => by simp, by simp [g2, h2], ?_, ?_, by rw [g1]; exact g6⟩
+      · rw [List.append_assoc]; exact (List.Perm.append_left sd g3).trans h3
+      · intro ho; rw [List.append_assoc, g4 ho]; exact h4 ho
+
+/-- `ResolveFutures` in blocking mode over the scripted queue (initial content `q0`): at completion
+    every future's output — those already queued and those pushed — was delivered exactly once (a
+    permutation; in queue order for the ordered queue), each after a `ready? true`, none after
+    finalize was started, for all resolution delays and downstream pending patterns. -/
+theorem resolveFutures_blocking_sound (ordered : Bool) (q0 : List (QEntry β)) :
+    (resolveC (β := β) ordered false).Sound q0 [0]
+      (fun _ ins outs => outs.Perm (qvals q0 ++ ins.map (·.2)) ∧
+        (ordered = true → outs = qvals q0 ++ ins.map (·.2))) :=
+  (aux_simResolve ordered q0).sound ⟨by simp, rfl, by simp, by simp, by simp⟩ (fun pu q pd su sd h hwf hc => by
+    obtain ⟨h1, h2, h3, h4, h5⟩ := h
+    have hpc : pd.closed = true := by rw [h2]; exact hc
+    have hq := h5 (hwf hpc)
+    subst hq
+    exact ⟨hpc, by simpa using h3, by simpa using h4⟩)
 
 /-! ## The standard driver `SendPush::poll` (= `SendSink::poll` over `SinkCompat`) -/
 
